@@ -254,7 +254,10 @@ def run(repo: Repo, L: Ledger, tier: str):
                                     if isinstance(st_, ast.Assign) and any(norm(t_) == norm(e_) for t_ in st_.targets):
                                         exprs_.append(st_.value)
                     txt_ = " ".join(norm(e_) for e_ in exprs_)
-                    if any(tok in txt_ for tok in ("tmp_file_for", "with_name", "with_suffix", "mkstemp", "NamedTemporaryFile", "getpid", ".tmp")):
+                    # a sibling name (with_suffix / with_name) is a scratch file only when the function also moves something into
+                    # place; otherwise it is simply another output (the .agp beside the .fa) and the mode decides
+                    moves_ = [c_ for c_ in repo.calls_in(f) if (isinstance(c_.func, ast.Attribute) and c_.func.attr in ("replace", "rename", "link_to", "hardlink_to") and not isinstance(c_.func.value, ast.Constant) and len(c_.args) == 1) or dotted(c_.func) in ("os.replace", "os.rename", "os.link", "shutil.move")]
+                    if any(tok in txt_ for tok in ("tmp_file_for", "mkstemp", "NamedTemporaryFile", "getpid", ".tmp")) or (moves_ and any(tok in txt_ for tok in ("with_name", "with_suffix"))):
                         raise AnalysisError(f"C16.R1 {inst}: a scratch file derived from the output path is opened with mode '{norm(mode)}' (to be moved into place later): publication protocols are not modelled")
                     L.fail("R1", inst, f"file opened for writing with mode '{norm(mode)}' that does not depend on the clobber flag", f.loc(call))
                     continue
